@@ -16,7 +16,7 @@ theorem caseOf?_wf {t : Rbgp.Term} {c : Case} (h : Codec.caseOf? t = some c) : c
 theorem c06_check_run_ok_of_codec (p : Profile) (t : Rbgp.Term) (c : Case) (h : Codec.caseOf? t = some c) :
     SpecC06.check c (observe p c) = .ok := by
   obtain ⟨g, hg⟩ := caseOf?_good h
-  exact PropsC06.check_run_ok p c g hg.wf
+  exact PropsC06.check_run_ok p c g hg
 
 /-- C15 (partial): the reference checker accepts the model run of every case the codec accepts that
     is short (< 2^63 steps) and lies outside the residual open finding (`Case.OneSession`: a limited
@@ -25,7 +25,7 @@ theorem c15_check_run_ok_partial_of_codec (p : Profile) (t : Rbgp.Term) (c : Cas
     (h : Codec.caseOf? t = some c) (hsh : c.Short) (hone : c.OneSession) :
     SpecC15.check c (observe p c) = .ok := by
   obtain ⟨g, hg⟩ := caseOf?_good h
-  exact PropsC15.check_run_ok_partial p c g hg.wf (caseOf?_purgeCtrOk h) hsh hone
+  exact PropsC15.check_run_ok_partial p c g hg (caseOf?_purgeCtrOk h) hsh hone
 
 end Rbgp.Rib.PropsCodec
 
